@@ -272,11 +272,10 @@ func (pc *ProviderCache) Refresh(ctx context.Context) error {
 		<-pc.writeLock
 	}()
 
-	pc.seq++
-	seq := pc.seq
-
+	// Get provider info from every source before changing any cache state, so
+	// that a refresh that is canceled part-way leaves the cache as it was.
+	fetched := make([][]*model.ProviderInfo, 0, len(pc.sources))
 	for _, src := range pc.sources {
-		// Get provider info from each source.
 		fetchedInfos, err := src.FetchAll(ctx)
 		if err != nil {
 			log.Errorw("cannot fetch provider info", "err", err, "source", src)
@@ -285,7 +284,13 @@ func (pc *ProviderCache) Refresh(ctx context.Context) error {
 			}
 			continue
 		}
+		fetched = append(fetched, fetchedInfos)
+	}
 
+	pc.seq++
+	seq := pc.seq
+
+	for _, fetchedInfos := range fetched {
 		// Collect latest info on each provider.
 		for _, fetchedInfo := range fetchedInfos {
 			pid := fetchedInfo.AddrInfo.ID
